@@ -349,3 +349,9 @@ func FsFaultOps(ops string) {}
 func FsStatDirs(on bool) {}
 
 func I16(name string) int16 { return int16(U16(name)) }
+
+// SchedYieldOnly selects the scheduling granularity of the engine: when on,
+// goroutines run until they block and the next one is chosen deterministically
+// (creation order); every runnable goroutine may be chosen only at Yield()
+// points. When off (default) every blocking point is a choice point.
+func SchedYieldOnly(on bool) {}
